@@ -214,3 +214,13 @@ func StubMD5(content string) string {
 
 // IsNetworkError stands in for util.IsNetworkError (errors.As needs reflection): harness errors are not network errors.
 func IsNetworkError(err error) bool { return false }
+
+// PromCounter is a plain prometheus.Counter.
+type PromCounter struct{ N float64 }
+
+func (c *PromCounter) Inc()                              { c.N++ }
+func (c *PromCounter) Add(v float64)                     { c.N += v }
+func (c *PromCounter) Desc() *prometheus.Desc            { return nil }
+func (c *PromCounter) Write(*dto.Metric) error           { return nil }
+func (c *PromCounter) Describe(chan<- *prometheus.Desc)  {}
+func (c *PromCounter) Collect(chan<- prometheus.Metric)  {}
